@@ -527,7 +527,7 @@ def explore(task):
                     cur["what"] = (f"{what}  | config {public_cfg(cfg)!r} schedule "
                                    f"{' '.join(label_str(x) for x in trace)}")
                     cur["replay"] = replay_dict(cfg, env, w, info)
-        elif len(samples) < 1 and (shared or hit) and len(trace) >= 5 and info["deviations"] >= 1:
+        elif len(samples) < 1 and shared and w.calls and len(trace) >= 5 and info["deviations"] >= 1:
             samples.append({"config": public_cfg(cfg), "schedule": " ".join(label_str(x) for x in trace),
                             "model_calls": [list(c) for c in w.calls], "outcome": info["outcome"],
                             "results_equal_model": True})
@@ -777,6 +777,7 @@ def _run(rep, tier, base, par):
         ts.sort(key=lambda c: 1 if c.get("big") else 0)
     else:
         ts.sort(key=lambda c: -weight(c))
+    by_id = {c["id"]: c for c in ts}
     gc.collect()
     gc.freeze()
     done = 0
@@ -796,10 +797,12 @@ def _run(rep, tier, base, par):
         slot["exhaustive_configs"] += bool(res["exhaustive"])
         n_exhaustive += bool(res["exhaustive"])
         if not res["exhaustive"]:
-            cfg = next(c for c in ts if c["id"] == res["id"])
-            dev_done.append({"config": public_cfg(cfg), "max_deviations_completed": res["max_deviations_completed"],
-                             "schedules_by_deviations": res["by_deviations"]})
-            if not res["complete"] and not cfg.get("dev_iter"):
+            cfg = by_id[res["id"]]
+            if cfg.get("dev_iter"):
+                dev_done.append({"config": public_cfg(cfg), "max_deviations_completed": res["max_deviations_completed"],
+                                 "schedules_checked_by_deviations": res["by_deviations"],
+                                 "a_larger_bound_was_started_but_not_finished": not res["complete"]})
+            else:
                 incomplete.append(public_cfg(cfg))
         for s in res["samples"]:
             rep.sample(s)
@@ -824,6 +827,9 @@ def _run(rep, tier, base, par):
     rep.set("configurations_enumerated_exhaustively", n_exhaustive)
     rep.set("by_request_count", by_req)
     rep.set("deviation_bounded_configurations", dev_done[:40])
+    rep.set("configurations_stopped_early", len(incomplete))
+    if incomplete:
+        rep.set("configurations_stopped_early_examples", incomplete[:10])
     # every schedule of the exhaustively enumerated configurations was run, whatever its number of deviations
     # (max_deviations_in_a_schedule); for the bounded ones the smallest completed bound is what can be claimed
     rep.set("max_deviations_completed",
@@ -833,10 +839,14 @@ def _run(rep, tier, base, par):
     rep.set("violation_classes_not_in_known_findings", new)
     exhaustive = done == len(ts) and not incomplete and n_exhaustive == len(ts)
     rep.set("exhaustive", exhaustive)
+    # the configurations that are not deviation-bounded by design (quick: all; thorough: everything with <= 4
+    # requests and the 2-request loop-iteration family) were enumerated completely
+    rep.set("exhaustive_for_unbounded_configurations", done == len(ts) and not incomplete)
     if not exhaustive:
         parts = []
         if incomplete:
-            parts.append(f"{len(incomplete)} configuration(s) stopped before all schedules were run (time budget {budget}s, or a non-terminating execution)")
+            parts.append(f"{len(incomplete)} configuration(s) stopped before all their schedules were run "
+                         f"(time budget {budget}s, or a non-terminating execution)")
         if dev_done:
             parts.append(f"{len(dev_done)} large configuration(s) enumerated up to a deviation bound only "
                          f"(smallest completed bound {min(bounded) if bounded else 'none'}; see deviation_bounded_configurations)")
